@@ -23,6 +23,8 @@ Definition K_DOMAIN_RENEW : N := 15.
 Definition K_DOMAIN_PURCHASE : N := 16.
 Definition K_DOMAIN_SEND : N := 17.
 Definition K_DOMAIN_SELL : N := 18.
+Definition K_BID_CREATE : N := 19.
+Definition K_BID_COUNTER : N := 20.
 
 (* ------------------------------------------------------------------------------------------------
    Effect functions.  [Some ops] = the handler's sequence of store calls as ledger operations (applied
@@ -145,6 +147,29 @@ Definition effect_domain_purchase (known : bool) (cur buyer fp : N) (offer : Z) 
 Definition effect_domain_send (known : bool) (cur from benef : N) (v : Z) : option (list lop) :=
   if amount_valid known v then Some [Move (bal from cur) (bal benef cur) v] else None.
 
+(* ---------------- bid app (external_apps/bid/bid_action) ----------------
+   There is no escrow account: BID_CREATE debits the bidder and the locked amount lives in the active offer record; every
+   unlock / payment moves the WHOLE record.  The asking price of a counter offer is an input (nothing is locked for it). *)
+Definition esc (bidder conv : N) : key := mk bidder B_BIDESCROW CUR_OLT conv.
+Definition unlock_ops (l : gmap key Z) (bidder conv : N) : list lop :=
+  [Move (esc bidder conv) (bal bidder CUR_OLT) (lget l (esc bidder conv))].
+(* BID_CREATE (new conversation, or a further offer answering an active counter offer c: must be below it).
+   Guards: Validate - currency OLT and Amount.IsValid (f99f70a: a negative amount used to CREDIT the bidder) *)
+Definition effect_bid_create (known : bool) (cur bidder conv : N) (v : Z) (has_counter : bool) (c : Z) : option (list lop) :=
+  if amount_valid known v && is_olt cur && (if has_counter then v <? c else true)
+  then Some [Move (bal bidder CUR_OLT) (esc bidder conv) v] else None.
+(* BID_CONTER_OFFER by the asset owner: must exceed the active bid; the bidder's bid is unlocked *)
+Definition effect_bid_counter (l : gmap key Z) (known : bool) (cur bidder conv : N) (v : Z) : option (list lop) :=
+  if amount_valid known v && is_olt cur && (lget l (esc bidder conv) <? v) then Some (unlock_ops l bidder conv) else None.
+(* BID_CANCEL (bidder), BID_EXPIRE (anybody - public router, no guard), owner / bidder REJECT: unlock *)
+Definition effect_bid_unlock (l : gmap key Z) (bidder conv : N) : option (list lop) := Some (unlock_ops l bidder conv).
+(* BID_OWNER_DECISION accept: the locked amount goes to the asset owner (the bidder authorised it when he signed the bid) *)
+Definition effect_bid_owner_accept (l : gmap key Z) (bidder owner conv : N) : option (list lop) :=
+  Some [Move (esc bidder conv) (bal owner CUR_OLT) (lget l (esc bidder conv))].
+(* BID_BIDDER_DECISION accept of a counter offer c: a direct transfer bidder -> owner, nothing was locked *)
+Definition effect_bid_bidder_accept (bidder owner : N) (c : Z) : option (list lop) :=
+  if 0 <=? c then Some [Move (bal bidder CUR_OLT) (bal owner CUR_OLT) c] else None.
+
 (* a transaction = the handler's operations followed by the fee step *)
 Definition tx_ops (e : option (list lop)) (payer fp : N) (fee : Z) : option (list lop) :=
   match e with Some ops => Some (ops ++ fee_ops payer fp fee) | None => None end.
@@ -206,7 +231,8 @@ Definition model_debit_fields : list (string * list string) := [
   ("rewards.Withdraw", ["SignerAddress"]);
   ("governance.CreateProposal", ["Proposer"]); ("governance.FundProposal", ["FunderAddress"]);
   ("governance.WithdrawFunds", ["Funder"]);
-  ("ons.DomainCreate", ["Owner"]); ("ons.RenewDomain", ["Owner"]); ("ons.DomainPurchase", ["Buyer"]); ("ons.DomainSend", ["From"])
+  ("ons.DomainCreate", ["Owner"]); ("ons.RenewDomain", ["Owner"]); ("ons.DomainPurchase", ["Buyer"]); ("ons.DomainSend", ["From"]);
+  ("bid_action.CreateBid", ["Bidder"]); ("bid_action.BidderDecision", ["Bidder"])
 ]%string.
 (* the fee payer is the FIRST signer (BasicFeeHandling charges Signatures[0], which ValidateBasic ties to Signers()[0]) *)
 Definition model_fee_payer_field : list (string * string) := [
@@ -217,7 +243,9 @@ Definition model_fee_payer_field : list (string * string) := [
   ("rewards.Withdraw", "SignerAddress");
   ("governance.CreateProposal", "Proposer"); ("governance.FundProposal", "FunderAddress");
   ("governance.WithdrawFunds", "Funder");
-  ("ons.DomainCreate", "Owner"); ("ons.RenewDomain", "Owner"); ("ons.DomainPurchase", "Buyer"); ("ons.DomainSend", "From")
+  ("ons.DomainCreate", "Owner"); ("ons.RenewDomain", "Owner"); ("ons.DomainPurchase", "Buyer"); ("ons.DomainSend", "From");
+  ("bid_action.CreateBid", "Bidder"); ("bid_action.BidderDecision", "Bidder"); ("bid_action.CancelBid", "Bidder");
+  ("bid_action.CounterOffer", "AssetOwner"); ("bid_action.OwnerDecision", "Owner"); ("bid_action.ExpireBid", "ValidatorAddress")
 ]%string.
 Definition lookup_signers (tbl : list (string * list string)) (t : string) : list string :=
   match find (fun x => String.eqb x.1 t) tbl with Some x => x.2 | None => [] end.
